@@ -140,7 +140,97 @@ pub fn public<S: Src, const N: usize>(s: &mut S) {
     }
 }
 
+/// Result of one iteration step, reduced to what can be compared: nothing / an error / a packet
+/// identified by its variant and the memory it views.
+fn fp(r: &Option<Result<Packet<'_>, RtcpParseError>>) -> (u8, usize, usize) {
+    match r {
+        None => (0, 0, 0),
+        Some(Err(_)) => (1, 0, 0),
+        Some(Ok(p)) => (2, p.length(), u32::from_be_bytes(p.header_data()) as usize),
+    }
+}
+
+fn same(a: &Option<Result<Packet<'_>, RtcpParseError>>, b: &Option<Result<Packet<'_>, RtcpParseError>>) -> bool {
+    fp(a) == fp(b)
+        && match (a, b) {
+            (Some(Err(x)), Some(Err(y))) => x == y,
+            _ => true,
+        }
+}
+
+/// The iterator methods derived from `next()` (`nth`, `count`, hence `skip`, `step_by`, ...)
+/// iterate like `next()` does: from the state reached after `pre` plain steps, `nth(k)` returns
+/// what the (k+1)-th further `next()` returns and leaves the same state behind, the following
+/// `next()` agrees too, and `count()` is the number of items `next()` still yields.
+/// The tiling is concrete per instance (`LAYOUT`: one hex digit per tile = its size in 32-bit
+/// words, first tile in the lowest digit) and every tile has the concrete type 199 (unknown
+/// packet), so that offsets and the dispatch in `Packet::parse` are decided during symbolic
+/// execution and many steps stay affordable; the first byte of every tile (version, padding
+/// bit, count: tiles that fail to parse included) and the bodies are symbolic.
+pub fn derived<S: Src, const N: usize, const LAYOUT: u32, const K: usize, const COUNT: bool>(s: &mut S) {
+    let mut data: [u8; N] = s.bytes();
+    let mut off = 0;
+    let mut l = LAYOUT;
+    while l != 0 {
+        let words = (l & 0xf) as usize;
+        data[off + 1] = 199;
+        data[off + 2] = 0;
+        data[off + 3] = (words - 1) as u8;
+        off += 4 * words;
+        l >>= 4;
+    }
+    assert!(off == N, "HARNESS: layout does not fill the datagram");
+    let d = &data[..N];
+    let mut compared = false;
+    if let (Ok(mut a), Ok(mut b)) = (Compound::parse(d), Compound::parse(d)) {
+        compared = true;
+        if COUNT {
+            // count() after K plain steps against counting next() by hand
+            let mut q = 0;
+            while q < K {
+                let (x, y) = (a.next(), b.next());
+                assert!(same(&x, &y));
+                forget((x, y));
+                q += 1;
+            }
+            let mut n = 0;
+            while let Some(x) = b.next() {
+                forget(x);
+                n += 1;
+                assert!(n <= N / 4, "more items than tiles");
+            }
+            assert!(a.count() == n, "count() disagrees with next()");
+        } else {
+            // nth(K) against K + 1 calls of next()
+            let got = a.nth(K);
+            let mut want = None;
+            let mut q = 0;
+            let mut ended = false;
+            while q <= K && !ended {
+                want = b.next();
+                if want.is_none() {
+                    ended = true;
+                } else if q < K {
+                    forget(want.take());
+                }
+                q += 1;
+            }
+            assert!(same(&got, &want), "nth(k) disagrees with k + 1 calls of next()");
+            assert!(verif::compound::state(&a) == verif::compound::state(&b), "nth(k) leaves a different state");
+            let (x, y) = (a.next(), b.next());
+            assert!(same(&x, &y), "next() after nth(k) disagrees");
+            forget((got, want, x, y));
+        }
+    }
+    vcover!(compared, "compared");
+}
+
 common::register! {
+    q_derived_nth1 = derived::<_, 16, 0x1111, 1, false> => 6,
+    q_derived_nth3 = derived::<_, 16, 0x1111, 3, false> => 6,
+    q_derived_nth4 = derived::<_, 16, 0x1111, 4, false> => 6,
+    q_derived_nth2_121 = derived::<_, 16, 0x121, 2, false> => 6,
+    t_derived_count1_121 = derived::<_, 12, 0x12, 1, true> => 6,
     q_parse = parse::<_, 64> => 18,
     q_step = step::<_, 32, false> => 2,
     t_step_64 = step::<_, 64, false> => 2,
